@@ -939,3 +939,21 @@ Proof.
     + rewrite (Hempty g Hg) in H. discriminate.
     + exists g'. auto.
 Qed.
+
+(* ====================================================================================== *)
+(* remotes with a real index (Model: run_groups_ix): where no group's remote has one, it is the
+   index-free run the theorems above are about *)
+Lemma run_groups_ix_noindex e k : forall gs w x a b,
+  (forall g, In g gs -> iget x (g_data g) = None) ->
+  run_groups_ix e k gs w x a b = (run_groups e k gs w a b, x).
+Proof.
+  induction gs as [|g r IH]; simpl; intros w x a b H; auto.
+  destruct (g_cache g) as [c|]; auto.
+  destruct (N.eqb c (g_data g)); [apply IH; intros; apply H; auto|].
+  assert (E : iget x (g_data g) = None) by (apply H; auto).
+  unfold group_in_ix, ix_after. rewrite E.
+  destruct (o_outcome (transfer (group_in e k w g c))); auto; try (apply IH; intros; apply H; auto).
+Qed.
+Lemma run_round_ix_noindex e k m idx w :
+  run_round_ix e k m idx w [] = (run_round e k m idx w, []).
+Proof. apply run_groups_ix_noindex. reflexivity. Qed.
